@@ -158,7 +158,7 @@ func runSnps(vec map[string]interface{}) map[string]interface{} {
 	obs["rows"] = rows
 	if gBool(vec, "cli") && err == nil {
 		args := flagBool([]string{"snps", "-r", "@ref.fa", "-q", "@q.fa"}, "--hard-gaps", hard)
-		for k, v := range cliRun(cliCase{files: map[string][]byte{"ref.fa": refFa, "q.fa": qFa}, args: args, inproc: out.String()}) {
+		for k, v := range cliRun(cliCase{files: map[string][]byte{"ref.fa": refFa, "q.fa": qFa}, args: args, inproc: out.String(), outflag: "-o"}) {
 			obs[k] = v
 		}
 	}
@@ -196,7 +196,7 @@ func runSnps(vec map[string]interface{}) map[string]interface{} {
 		obs["agg"] = agg
 		if gBool(vec, "cli") && err == nil {
 			args := flagBool([]string{"snps", "-r", "@ref.fa", "-q", "@q.fa", "--aggregate", "--threshold", ts}, "--hard-gaps", hard)
-			r := cliRun(cliCase{files: map[string][]byte{"ref.fa": refFa, "q.fa": qFa}, args: args, inproc: aout.String()})
+			r := cliRun(cliCase{files: map[string][]byte{"ref.fa": refFa, "q.fa": qFa}, args: args, inproc: aout.String(), outflag: "-o"})
 			for k, v := range r {
 				obs["agg_"+k] = v
 			}
@@ -257,7 +257,7 @@ func runClosest(vec map[string]interface{}) map[string]interface{} {
 			}
 		}
 		args = flagBool(args, "--table", table && !plain)
-		for k, v := range cliRun(cliCase{files: map[string][]byte{"q.fa": qFa, "t.fa": tFa}, args: args, inproc: out.String()}) {
+		for k, v := range cliRun(cliCase{files: map[string][]byte{"q.fa": qFa, "t.fa": tFa}, args: args, inproc: out.String(), outflag: "-o"}) {
 			obs[k] = v
 		}
 	}
